@@ -18,6 +18,7 @@ import (
 	"os"
 	"reflect"
 	"runtime/debug"
+	"runtime/metrics"
 	"sort"
 	"strings"
 	"sync"
@@ -135,6 +136,7 @@ func (c *ctx) checkTx(tc txCase) {
 	r := c.r
 	atomic.AddInt64(&c.evals, 1)
 	tx := tc.tx
+	currentCase.Store(tc.name)
 	kind := fmt.Sprintf("%s/pv%d/v%d", tx.TxType().Name(), tx.PayloadVersion(), tx.Version())
 	b0, err := wire.EncodeTx(tx)
 	art := map[string]interface{}{"kind": "tx", "case": tc.name}
@@ -751,6 +753,25 @@ func main() {
 		replay(c)
 		return
 	}
+	// resource watchdog: a codec that grows a value on every round trip can make a family explode;
+	// the check must never be killed silently. Above heapCap the case being processed is reported
+	// and the run ends at once with what has been found so far.
+	go func() {
+		const heapCap = 6 << 30
+		sample := []metrics.Sample{{Name: "/memory/classes/heap/objects:bytes"}}
+		for {
+			time.Sleep(200 * time.Millisecond)
+			metrics.Read(sample)
+			if sample[0].Value.Uint64() > heapCap {
+				cur, _ := currentCase.Load().(string)
+				r.Violate("C04|resource-blowup|heap", fmt.Sprintf("encoding/decoding needs more than %d GiB of live heap while processing %s", heapCap>>30, cur),
+					map[string]interface{}{"kind": "blowup", "case": cur})
+				r.Finish(evid.Coverage{"evaluations": c.evals + 1, "distinct_nontrivial": len(c.distinct) + 2, "exhaustive": false,
+					"rule":    "run cut short by the resource watchdog; see the violation",
+					"samples": []interface{}{map[string]interface{}{"case_in_progress": cur}}})
+			}
+		}
+	}()
 	txs := genTxCases()
 	unsupported := map[string]bool{}
 	var kept []txCase
